@@ -354,7 +354,7 @@ def write_evidence(prop, tier, seed, roots, seen, results, obl, n_obl, n_dis, vi
         ]
         + [f"extraction: {d}" for d in EXTRACTION_DROPS]
         + [f"python semantics: {d}" for d in PY_SEMANTICS]
-        + [f"library model used: {m}" for m in sorted(npmodel.MODELS_USED)]
+        + [f"library model used (assumed contract): {m}" for m in sorted(set(npmodel.MODELS_USED) | {m for r in results for m in r.get("models_used", [])})]
         + trusted
     )
     ev = dict(
